@@ -148,7 +148,8 @@ def check_buffer(I, buf, starts, mode, e):
             if cur and lo < cur[0][0]:
                 flags.append("lowest")
             if any(lo < a < hi for a, b_ in cur):
-                flags.append("swallow")
+                nsw = sum(1 for a, b_ in cur if lo < a < hi)
+                flags.append("swallow" + ("1" if nsw == 1 else "N") + ("-sameend" if any(b_ == hi for a, b_ in cur) else ""))
             if any(a == hi for a, b_ in cur):
                 flags.append("adjacent")
             shape = "+".join(flags) or "free"
@@ -193,7 +194,7 @@ def check_buffer(I, buf, starts, mode, e):
                         fails.append(("%s:graph-split-edge" % I.short, "node %#x was split at %#x but there is no edge between the halves (edges %r)" % (a, lo, sorted(es)[:6])))
             if fails:
                 break
-            if "swallow" in flags and ("cut" in flags or "lowest" in flags):
+            if (any(f.startswith("swallowN") for f in flags) and "cut" in flags) or (any(f.startswith("swallow") for f in flags) and "lowest" in flags):
                 # listed findings (C18-cut-and-swallow / C18-lowest-swallow): the support may now be
                 # corrupted without the invariant showing it yet; later insertions are not judged
                 stats["tainted"] = stats.get("tainted", 0) + 1
